@@ -1516,7 +1516,34 @@ print(out, out2)
 ]
 
 
-EVERYDAY = [p.lstrip("\n") for p in PROGS + PROGS2 + PROGS3]
+
+# Tenth wave: the shapes behind the defects that round-4 seeding agents stumbled over on the unchanged tree (DESIGN 10.12)
+PROGS4 = [
+'items = ["a", "b"]\nout = list(map(lambda s: s + r"\\n", items))\nprint(out)\n',
+'import re\nwords = ["a1", "b22", "c"]\nhits = list(filter(lambda w: re.search(r"\\d+$", w), words))\nprint(hits, r"\\t|\\d", br"\\x00")\n',
+'paths = ["x", "y"]\nwin = []\nfor p in paths:\n    win.append(r"C:\\new" + "\\\\" + p)\nprint(win)\n',
+'def f(x):\n    return x * 1.5\n\n\ndef g(x):\n    return x * 2.5\n\n\nprint(f(2), g(2))\n',
+'def a(x):\n    return x or None\n\n\ndef b(x):\n    return x or ...\n\n\ndef c(x):\n    return x or b"x"\n\n\ndef d(x):\n    return x or b"y"\n\n\nprint(a(0), b(0), c(0), d(0))\n',
+'def one(x):\n    return x + 1\n\n\ndef true(x):\n    return x + True\n\n\ndef cplx(x):\n    return x + 1j\n\n\nprint(one(1), true(1), cplx(1), type(one(1.0)))\n',
+'def f():\n    _ = 5\n    print(_ + 1)\n\n\nf()\n',
+'import gettext\n_ = gettext.gettext\nprint(_("hello"))\n',
+'for _ in range(2):\n    print(_)\n_, b = 1, 2\nprint(_, b)\n',
+'def _(x):\n    return x + 1\n\n\nprint(_(1))\n',
+'def f():\n    return 1\n\n\ndef f():\n    print("x")\n    return 2\n\n\nf()\nprint("done")\n',
+'class A:\n    def run(self):\n        return 1\n\n\nclass B:\n    def run(self):\n        print("B runs")\n\n\nA().run()\nB().run()\nprint("end")\n',
+'def log(m):\n    return m\n\n\nif True:\n    def log(m):\n        print("log:", m)\n\nlog("a")\nprint("z")\n',
+'"""Doc\nmore doc\n"""\nx = os.getcwd()\nprint(len(x) > 0)\n',
+'"""Doc\nmore doc\n"""\nimport os\nx = os.getcwd()\nprint(len(x) > 0, len(sys.argv) > 0)\n',
+'from __future__ import (\n    annotations,\n)\nx = os.getcwd()\nprint(len(x) > 0)\n',
+"s = 'a\x0cb'\nx = os.getcwd()\nprint(len(s), len(x) > 0)\n",
+"#!/usr/bin/env python\n# -*- coding: utf-8 -*-\n'''doc\n\nmore\n'''\n\nfrom __future__ import annotations\n\nprint(math.floor(2.5), os.sep in os.getcwd())\n",
+'def f(n):\n    return f(n - 1) if n else 0\n\n\ndef longer_name(n):\n    return longer_name(n - 1) if n else 0\n\n\nprint(f(3), longer_name(4))\n',
+'def use():\n    return longer_name(2)\n\n\ndef f(n):\n    return n + 1\n\n\ndef longer_name(n):\n    return n + 1\n\n\nprint(f(3), longer_name(4), use())\n',
+'def first(xs):\n    return [x for x in xs if x]\n\n\ndef a_much_longer_second_name(ys):\n    return [y for y in ys if y]\n\n\ndef k(v):\n    return a_much_longer_second_name(v) + first(v) + a_much_longer_second_name(v)\n\n\nprint(k([0, 1]))\n',
+'def build():\n    a = [100, 200, 300, 400, 500, 600]\n    b = [100, 200, 300, 400, 500, 600]\n    c = [100, 200, 300, 400, 500, 600]\n    d = [100, 200, 300, 400, 500, 600]\n    e = [100, 200, 300, 400, 500, 600]\n    a.append(1)\n    return a, b, c, d, e\n\n\nprint(build())\n',
+]
+
+EVERYDAY = [p.lstrip("\n") for p in PROGS + PROGS2 + PROGS3 + PROGS4]
 
 DATA = ["[]", "[3]", "[2, 1, 2]", "[5, -1, 4, 4, 0]", "(1, 2, 3)", "range(4)", "range(2, 9, 3)", "'abca'", "{2, 7}", "{'b': 1, 'a': 2}"]
 EXPRS = [
